@@ -5,7 +5,7 @@ the patched tree builds and passes the existing (stable) tests. Prints a JSON ve
 import sys, os, subprocess, shutil, json, glob
 wt, seed, dest = sys.argv[1], sys.argv[2], sys.argv[3]
 cmd = sys.argv[4:]
-env = dict(os.environ, CARGO_TARGET_DIR=os.path.join(wt, "target"), CARGO_NET_OFFLINE="true")
+env = dict(os.environ, CARGO_TARGET_DIR=os.path.join(wt, "target"), CARGO_NET_OFFLINE="true", CARGO_INCREMENTAL="0", CARGO_PROFILE_DEV_DEBUG="0", CARGO_PROFILE_TEST_DEBUG="0")
 def run(c, **kw):
     if c and c[0] == "cargo":
         # private network namespace: the server tests bind fixed ports and collide with other scratch worktrees
